@@ -1214,8 +1214,9 @@ fn expr_math_func(interp: &mut Interp, info: &mut ExprInfo, func_name: &str) -> 
         for i in 0..bfunc.num_args {
             let arg = expr_get_value(interp, info, -1)?;
 
-            // At present we have no string functions.
-            if arg.vtype == Type::String {
+            // At present we have no string functions.  (When the call is in a skipped
+            // operand the argument has not been evaluated and has no type.)
+            if info.no_eval == 0 && arg.vtype == Type::String {
                 return molt_err!("argument to math function didn't have numeric value");
             }
 
@@ -1259,13 +1260,15 @@ fn expr_math_func(interp: &mut Interp, info: &mut ExprInfo, func_name: &str) -> 
         }
     }
 
+    // NEXT, the call is a value, whether or not it is evaluated.
+    info.token = VALUE;
+
     // NEXT, if we aren't evaluating, return an empty value.
     if info.no_eval > 0 {
         return Ok(Datum::none());
     }
 
     // NEXT, invoke the math function.
-    info.token = VALUE;
     (bfunc.func)(&args)
 }
 
